@@ -28,7 +28,7 @@ def build_cases(tier, seed):
         prof = dict(PROFILE)
         if i % 6 == 5:
             prof["network"] = "grid"
-        cases.append(trace_case("C02", i, s, prof, ctrl, steps, ["C02"]))
+        cases.append(trace_case("C02", i, s, prof, ctrl, steps, ["C02"], opts=({"inject_requests": {"every": 6, "public": i % 10 == 7}} if i % 5 == 2 else {})))
     cases += systematic_cases("C02", tier, seed)
     if tier == "thorough":
         for w in ("denver_downtown/denver_demo.yaml", "denver_downtown/denver_demo_constrained_charging.yaml", "denver_downtown/denver_demo_fleets.yaml"):
